@@ -27,7 +27,7 @@ ASSUMPTIONS = [
     "injected garbage is of the promptly-rejectable kind (>= one header long, wrong prefix); input that makes the client wait for a declared length is C06/C17's subject",
     "'holds an open connection' = the simulated socket was accepted and the client has not yet called close()/abort() on it nor lost it",
 ]
-PROBES = ["c07.frame_then_fin", "c07.fin_at_accept", "c07.double_reset_same_instant", "c07.fault_during_reconnect", "c07.fault_at_retry_timer", "c07.unencodable_while_down",
+PROBES = ["c07.slow_close", "c07.connect_during_slow_close", "c07.frame_then_fin", "c07.fin_at_accept", "c07.double_reset_same_instant", "c07.fault_during_reconnect", "c07.fault_at_retry_timer", "c07.unencodable_while_down",
           "c07.raising_subscriber", "c07.api_class", "c07.probe_delivered"]
 
 
@@ -36,7 +36,7 @@ def budget(tier: str) -> int:
 
 
 FAULTS = ["refuse", "slow_accept", "fin", "rst", "garbage", "bad_crc", "undecodable", "truncated", "write_error", "unencodable", "send",
-          "frame_then_fin", "fin_at_accept"]
+          "frame_then_fin", "fin_at_accept", "drain_error_at_connect", "slow_close"]
 
 
 def _probe_status(gen: int, marker: int) -> bytes:
@@ -79,9 +79,14 @@ def generate(rng, index: int, tier: str) -> dict:
     msgs = sendq.distinct_messages(rng, gen, 24)
     mi = 0
     recon_lat = 0.0
+    stale_timer = None  # instant at which a delayed connect scheduled by an earlier recovery path fires
     for d in range(depth):
         kind = rng.choice(FAULTS)
         gap = rng.choice([0.0, G.EPS, lat, lat + G.EPS, 0.5, 2.0 - G.EPS, 2.0, 2.0 + G.EPS, recon_lat, recon_lat + lat, 3.0])
+        if stale_timer is not None and rng.random() < 0.6:
+            # a disconnect that is still in progress when that delayed connect fires
+            kind = "slow_close"
+            gap = max(0.0, stale_timer - t - rng.choice([0.25, 0.125, 0.5]))
         t += gap
         # how the reconnect triggered by this fault will fare
         r = rng.random()
@@ -151,6 +156,38 @@ def generate(rng, index: int, tier: str) -> dict:
             tl.append({"at": t, "op": "net.fates", "fates": recon})
             tl.append({"at": t, "op": "net.fin_next_accept", "delay": rng.choice([0.0, 0.0, G.EPS, lat])})
             tl.append({"at": t, "op": rng.choice(["net.fin", "net.rst"])})
+        elif kind == "drain_error_at_connect":
+            # a command waits for the link; the connection comes up and the very first write on it fails: the error is met by
+            # the drain inside the connect path, whose caller also falls back to a delayed (2 s) connect
+            acc_l = rng.choice([0.125, 0.5, 1.0])
+            tl.append({"at": t, "op": "net.fates", "fates": [{"kind": "accept", "latency": acc_l}, {"kind": "accept", "latency": rng.choice([0.0, 0.125])}]})
+            tl.append({"at": t, "op": "net.rst"})
+            tl.append({"at": t + lat + G.EPS, "op": "net.fail_write", "nth": 1, "err": rng.choice(["EPIPE", "ECONNRESET"])})
+            if api:
+                tl.append({"at": t + lat + 2 * G.EPS, "op": "user.api", "target": ["ac", 0], "call": "set_fan_speed", "args": {"fan": rng.choice(["LOW", "HIGH", "AUTO", "MEDIUM"])}})
+            else:
+                tl.append({"at": t + lat + 2 * G.EPS, "op": "user.send", "msg": msgs[mi], "policy": "idem"})
+                mi += 1
+            stale_timer = t + lat + acc_l + 2.0
+            t += lat + acc_l + 0.25
+            recon_lat = 0.0
+            continue
+        elif kind == "slow_close":
+            # flow control: the transport still holds unflushed bytes when the peer closes (or sends garbage), so the client's
+            # disconnect has to wait for the close to complete - anything scheduled earlier may fire in that window
+            dur = rng.choice([0.125, 0.5, 1.0, 2.5])
+            d1 = rng.choice([G.EPS, 0.125, 0.25])
+            tl.append({"at": t, "op": "net.stall", "on": True})
+            if api:
+                tl.append({"at": t + G.EPS, "op": "user.api", "target": ["at"], "call": "check_for_updates", "args": {}})
+            else:
+                tl.append({"at": t + G.EPS, "op": "user.send", "msg": msgs[mi], "policy": "idem"})
+                mi += 1
+            tl.append({"at": t + d1, "op": "net.fates", "fates": recon})
+            tl.append({"at": t + d1, "op": rng.choice(["net.fin", "net.fin", "console.raw"]), "hex": "00" * 24})
+            tl.append({"at": t + d1 + dur, "op": "net.stall", "on": False})
+            t += d1 + dur
+            stale_timer = None
         elif kind == "write_error":
             tl.append({"at": t, "op": "net.fates", "fates": recon})
             tl.append({"at": t, "op": "net.fail_write", "nth": rng.choice([1, 2, 3]), "err": rng.choice(["EPIPE", "ECONNRESET", "ETIMEDOUT"])})
@@ -263,6 +300,12 @@ def execute(sc: dict) -> dict:
             probes["c07.fault_at_retry_timer"] = 1
     if any(st["op"] == "net.fin_next_accept" for st in sc["timeline"]):
         probes["c07.fin_at_accept"] = 1
+    stalls = [(st["at"], st.get("on", True)) for st in sc["timeline"] if st["op"] == "net.stall"]
+    if stalls:
+        probes["c07.slow_close"] = 1
+        spans = [(a, b) for (a, on), (b, _off) in zip(stalls[::2], stalls[1::2])]
+        if any(a < at[0] < b and at[0] > 0 for at in attempts.values() for (a, b) in spans):
+            probes["c07.connect_during_slow_close"] = 1
     tl_ops = [(st["at"], st["op"]) for st in sc["timeline"]]
     if any(op == "console.raw" and (at, "net.fin") in tl_ops for (at, op) in tl_ops):
         probes["c07.frame_then_fin"] = 1
@@ -272,8 +315,17 @@ def execute(sc: dict) -> dict:
         probes["c07.unencodable_while_down"] = 1
     probe_raw = next((st for st in sc["timeline"] if st.get("probe") and st["op"] in ("console.raw", "console.set")), None)
     probe_cmd = next((st for st in sc["timeline"] if st.get("probe") and st["op"] not in ("console.raw", "console.set")), None)
+    # "once the network behaves again": a peer window that stays closed for good is a network that does not
+    stalled_for_good = False
+    for st in sc["timeline"]:
+        if st["op"] == "net.stall":
+            stalled_for_good = bool(st.get("on", True))
+        elif st["op"] == "net.clear_faults":
+            stalled_for_good = False
     if w.verdict == "stepcap":
         V.append(viol("C07.livelock", {"steps": w.loop.steps, "t": w.loop._vtime}))
+    elif stalled_for_good:
+        pass
     elif probe_raw is not None and probe_cmd is not None and opened:
         t_probe = probe_raw["at"]
         cur = w.net.current_link()
